@@ -10,6 +10,20 @@ The executor and the Lean runner (lean/Flatland/TreeJson.lean) follow the same p
     left the tree in an earlier call ("pool");
   * labels are assigned in observation order (reachable elements in queue order, then the objects
     on their `.parent` chains), so they depend on identity behaviour only.
+
+Failure / recovery paths (round h8, all OPTIONAL fields — a case without them runs exactly as before):
+  * `case["aux"] = [{"value": raw}, ...]`: further trees the case keeps alive (instances of the root class built with
+    `cls(value)`); `Exec.trees()` = [root] + aux; an op with `"tt": n` aims at the containers of tree n % len(trees);
+  * a third source of Element arguments, `{"live": {"tree": n, "k": j, "where": "any"|"same"|"other", "any": bool}}`:
+    the j-th CURRENT member (child of a container reachable from tree n) of the needed class (`"any"`: of whatever
+    class), optionally only of the target container itself / only of other containers — an element that is already a
+    member of a live tree is handed to a placing call;
+  * `"ix": "str"|"none"|"float"` on seq `setitem` / `insert`: the index is an object that is no index ('1', None,
+    1.5) — the call is REJECTED with TypeError; sort key `"raise"`: the key function raises ValueError on its second
+    call;
+  * `Exec.snapshot()` / `info["snap_before"]`, `info["snap_after"]`, `info["live_args"]`, `info["atomic"]`
+    (see `atomic_route`) and `Exec.taint` serve the oracle clauses of C08 / C09: `check_rejected`.
+The Lean runners answer {"unsupported": true} for cases using any of these (oracle only).
 """
 import itertools
 import operator
@@ -207,6 +221,16 @@ class Skip(Exception):
     pass
 
 
+BAD_INDEX = {"str": "1", "none": None, "float": 1.5}
+
+
+def bad_index(op):
+    """the index of a seq `setitem` / `insert`: `op["i"]`, or — `"ix"` — an object that is no index"""
+    if "ix" in op:
+        return BAD_INDEX[op["ix"]]
+    return op["i"]
+
+
 class Exec:
     """Runs one case on the real flatland.  `view(ex, info)` renders the observation of the
     property after the init step and after every op; `check(ex, info)` (optional) returns a list
@@ -227,6 +251,9 @@ class Exec:
         self.nav_errors = []
         self.foreign_owner = {}
         self.memo = {}
+        self.aux = []          # further tree roots kept alive by the case (case["aux"])
+        self.fp = {}           # step number -> failure-path bookkeeping for tags (returned under "_fp": not compared)
+        self.taint = {}        # id -> element that was handed to a call while it was a member of a live tree (aliasing)
 
     # -- identity labels
     def see(self, obj):
@@ -238,6 +265,9 @@ class Exec:
         if obj is None:
             return None
         return self.labels.get(id(obj), "?")
+
+    def lab_of_id(self, ident):
+        return self.labels.get(ident, "?")
 
     # -- navigation through the public API
     def children(self, el):
@@ -278,9 +308,75 @@ class Exec:
         for e in els:
             for p in self.parents(e):
                 self.see(p)
+        for r in self.aux:
+            els = [e for e, _ in self.reach(r)]
+            for e in els:
+                self.see(e)
+            for e in els:
+                for p in self.parents(e):
+                    self.see(p)
 
-    def containers(self):
-        return [e for e, _ in self.reach() if is_seq(e) or is_map(e)]
+    def containers(self, tree=0):
+        trees = self.trees()
+        return [e for e, _ in self.reach(trees[tree % len(trees)]) if is_seq(e) or is_map(e)]
+
+    def trees(self):
+        """the roots the case keeps alive: the main tree first"""
+        return [self.root] + list(self.aux)
+
+    def snapshot(self):
+        """what a REJECTED call may not change: per kept tree the reachable elements in queue order, each with the
+        container that lists it, its `.parents` chain (identities) and the names of the slots on that chain"""
+        from flatland.schema.base import Slot
+        out = []
+        for r in self.trees():
+            rows = []
+            for e, c in self.reach(r):
+                chain = self.parents(e)
+                rows.append((id(e), id(c) if c is not None else None, tuple(id(p) for p in chain),
+                             tuple(getattr(p, "name", None) for p in chain if isinstance(p, Slot))))
+            out.append(rows)
+        return out
+
+    def reachable_ids(self):
+        ids = set()
+        for r in self.trees():
+            for e, _ in self.reach(r):
+                ids.add(id(e))
+        return ids
+
+    def holders(self, el):
+        """containers — over all kept trees and over the detached subtrees waiting in the pool, which a later call may
+        graft back — whose `children` list `el`, with multiplicity"""
+        out = []
+        seen = set()
+        for r in self.trees() + list(self.pool):
+            for c, _ in self.reach(r):
+                if id(c) in seen:
+                    continue
+                seen.add(id(c))
+                for ch in self.children(c):
+                    if ch is el:
+                        out.append(c)
+        return out
+
+    def heal(self):
+        """an aliased element is a tree member again once exactly one container lists it and its parent pointer
+        designates that container (directly or through a slot)"""
+        from flatland.schema.base import Slot
+        for k, el in list(self.taint.items()):
+            hs = self.holders(el)
+            if len(hs) > 1:
+                continue
+            vis = [p for p in self.parents(el) if not isinstance(p, Slot)]
+            if not hs or (vis and vis[0] is hs[0]):
+                if hs:
+                    # through a slot: the slot must be one the List holds
+                    par = el.parent
+                    if isinstance(par, Slot) and (getattr(par, "element", None) is not el or not (
+                            is_seq(hs[0]) and any(s is par for s in list.__iter__(hs[0])))):
+                        continue
+                del self.taint[k]
 
     # -- arguments
     def needed_schema(self, target, key):
@@ -323,6 +419,27 @@ class Exec:
     def mk_arg0(self, target, key, a):
         if "v" in a:
             return ("plain", py(a["v"]))
+        if "live" in a:
+            spec = a["live"]
+            trees = self.trees()
+            tr = trees[spec.get("tree", 0) % len(trees)]
+            need = self.needed_schema(target, key)
+            where = spec.get("where", "any")
+            above = {id(p) for p in self.parents(target)} | {id(target)}
+            cands = []
+            for cont, _ in self.reach(tr):
+                if not (is_seq(cont) or is_map(cont)):
+                    continue
+                if (where == "same" and cont is not target) or (where == "other" and cont is target):
+                    continue
+                for ch in self.children(cont):
+                    if id(ch) in above:
+                        continue           # never the target itself or one of its holders (that would be a cycle)
+                    if spec.get("any") or (need is not None and type(ch) is need):
+                        cands.append(ch)
+            if not cands:
+                raise Skip("nolive")
+            return ("elem", cands[spec.get("k", 0) % len(cands)])
         if "pool" in a:
             if not self.pool:
                 raise Skip("nopool")
@@ -391,9 +508,9 @@ class Exec:
             if name == "iadd":
                 operator.iadd(target, vals); return "ok"
             if name == "insert":
-                target.insert(op["i"], vals[0]); return "ok"
+                target.insert(bad_index(op), vals[0]); return "ok"
             if name == "setitem":
-                target[op["i"]] = vals[0]; return "ok"
+                target[bad_index(op)] = vals[0]; return "ok"
             if name == "setslice":
                 target[slice(*op["sl"])] = vals; return "ok"
             if name == "delitem":
@@ -430,6 +547,15 @@ class Exec:
                 elif op.get("key") == "field":
                     fname = op["field"]
                     kw["key"] = lambda e: e[fname].u          # only a member can be subscripted
+                elif op.get("key") == "raise":
+                    calls = [0]
+
+                    def failing_key(e):                        # a key function that fails on its second call
+                        calls[0] += 1
+                        if calls[0] >= 2:
+                            raise ValueError("key")
+                        return 0
+                    kw["key"] = failing_key
                 target.sort(reverse=bool(op["rev"]), **kw); return "ok"
             if name == "set":
                 return ("b", target.set(py(op["v"])))
@@ -569,6 +695,13 @@ class Exec:
                 out = {"exc": exc_name(e)}
         else:
             raise ValueError(route)
+        for spec in self.case.get("aux") or []:
+            try:
+                r = cls(py(spec.get("value")))
+            except Exception:
+                r = cls()
+            self.aux.append(r)
+            self.keep.append(r)
         self.observe()
         info = {"i": 0, "init": True, "out": out, "target": None, "args": [], "op": None, "kind": None,
                 "before": None}
@@ -602,7 +735,8 @@ class Exec:
 
     def step(self, i, o):
         info = {"i": i, "init": False, "target": None, "args": [], "op": None, "kind": None, "before": None}
-        cs = self.containers()
+        cs = self.containers(o.get("tt", 0))
+        info["tree"] = o.get("tt", 0) % (1 + len(self.aux))
         if not cs:
             info["out"] = {"skip": "notarget"}
             return self.finish_step(info)
@@ -641,21 +775,44 @@ class Exec:
         info["before"] = before
         info["before_children"] = self.children(target)
         info["before_items"] = dict(dict.items(target)) if is_map(target) else None
+        live_now = self.reachable_ids()
+        info["live_args"] = [v for tag, v in args if tag == "elem" and id(v) in live_now]
+        info["snap_before"] = self.snapshot()
+        info["atomic"] = atomic_route(target, kind, op, args)
         try:
             r = self.call(target, kind, op, args)
             info["ret"] = r
             info["raised"] = None
         except Exception as e:
+            if type(e).__name__ == "CaseTimeout":
+                raise
             r = None
             info["ret"] = None
             info["raised"] = e
+        info["snap_after"] = self.snapshot() if info["raised"] is not None else None
+        # an element handed over while it was a member of a live tree is aliased from now on (until `heal` finds it
+        # under one container again); a rejected call that moved it nevertheless is reported by `check_rejected`
+        # at THIS step and the element is tainted as well, so that the after-effect is reported once
+        if info["live_args"] and (info["raised"] is None or info["atomic"] is None
+                                  or info["snap_after"] != info["snap_before"]):
+            for v in info["live_args"]:
+                self.taint[id(v)] = v
         # detached elements join the pool
         after_ids = {id(e) for e, _ in self.reach()}
         gone = [(e, c) for e, c in before if id(e) not in after_ids]
         gone_ids = {id(e) for e, _ in gone}
         for e, c in gone:
-            if c is not None and id(c) not in gone_ids:
-                self.pool.append(e)
+            if c is not None and id(c) not in gone_ids and not any(q is e for q in self.pool):
+                self.pool.append(e)       # (once: an aliased element may have been listed twice)
+        info["tainted"] = set(self.taint)      # aliased at the time of the call (before `heal`)
+        self.heal()
+        live = info["live_args"]
+        kids = self.children(target)
+        self.fp[info["i"]] = {"live": len(live), "tree": info.get("tree", 0), "route": info["atomic"],
+                       "raised": info["raised"] is not None,
+                       "moved": sum(1 for a in live if any(c is a for c in kids)) if info["raised"] is None else 0,
+                       "aliased": sum(1 for a in live if len(self.holders(a)) > 1) if live else 0,
+                       "taint": len(self.taint)}
         self.observe()
         if info["raised"] is not None:
             info["out"] = {"exc": exc_name(info["raised"])}
@@ -667,7 +824,137 @@ class Exec:
         self.init()
         for i, o in enumerate(self.case["ops"], 1):
             self.step(i, o)
-        return {"steps": self.steps}
+        out = {"steps": self.steps}
+        if self.fp:
+            out["_fp"] = [self.fp.get(i) for i in range(len(self.steps))]
+        return out
+
+
+# ------------------------------------------------------------------ rejected calls (failure paths)
+
+SEQ_ATOMIC = ("append", "insert", "setslice", "delitem", "delslice", "pop", "remove", "index", "count", "contains",
+              "getitem", "getslice", "len", "reversed", "imul_bad", "reverse", "clear")
+MAP_ATOMIC = ("delitem", "pop", "popitem", "clear", "get", "contains", "len")
+
+
+def atomic_route(target, kind, op, args):
+    """The name of the route if an exception raised by this call is a REJECTION, i.e. is raised before any documented
+    effect, so that the call must leave everything observable as it was; None for calls whose documented behaviour
+    includes effects before a later failure:
+      * extend / += / *= / update / |= keep the items placed before the failing one (as list.extend(<generator>) and
+        dict.update(<pairs>) do); set / set_default / set_flat empty the container first;
+      * `lst[i] = <plain value>` on a List with a valid index is `lst[i].set(value)`: a member set in place may raise
+        after it was reset (KF-C09-b); item assignment of a declared key on a mapping likewise;
+      * a key-less sort that fails in a comparison leaves the list rearranged, as a Python list does."""
+    name = op["op"]
+    if kind == "seq":
+        k = kind_of_element(target)
+        if name == "setitem":
+            tag = args[0][0] if args else "plain"
+            if tag == "elem":
+                return ("list" if k == "list" else "array") + "-setitem-element"
+            if k != "list":
+                return "array-setitem-plain"
+            if "ix" in op:
+                return "list-setitem-plain-index"
+            n = len(target)
+            return "list-setitem-plain-index" if not (-n <= op["i"] < n) else None
+        if name == "insert":
+            return ("list" if k == "list" else "array") + ("-insert-badindex" if "ix" in op else "-insert")
+        if name == "sort":
+            return "sort-key" if op.get("key") in ("len", "field", "raise") else None
+        if name in SEQ_ATOMIC:
+            return ("list" if k == "list" else "array") + "-" + name
+        return None
+    if name == "setitem":
+        names = {f.name for f in (target.field_schema or ())}
+        return "map-setitem-undeclared" if op["k"] not in names else None
+    if name == "setdefault":
+        names = {f.name for f in (target.field_schema or ())}
+        if kind_of_element(target) != "sparse" or op["k"] not in names:
+            return "map-setdefault"
+        return None
+    if name in MAP_ATOMIC:
+        return "map-" + name
+    return None
+
+
+def check_rejected(ex, info):
+    """Oracle clauses about failure paths, on the real code, for every step (shared by C08 and C09).
+
+    (b) `rejected-changes-nothing`: a call that raises on a rejection route (`atomic_route`) leaves every kept tree as
+        it was: the same elements reachable in the same order under the same containers, every parent chain the same
+        objects, every slot name the same.
+    (b') `unplaced-argument-untouched`: a call that raises on any other route (prefix semantics) leaves the parent
+        chain of every live Element argument that did NOT become a child of the target as it was.
+    Returns failure dicts; each carries what a class predicate needs: the route, which elements differ, whether the
+    differences are confined to the live arguments (and what hangs below them), whether the listing is unchanged."""
+    from flatland.schema.base import Slot
+    fails = []
+    if info.get("init") or info.get("target") is None or info.get("raised") is None:
+        return fails
+    before, after = info["snap_before"], info["snap_after"]
+    route = info.get("atomic")
+    op = info.get("op")
+    target = info["target"]
+    live = info.get("live_args") or []
+    live_ids = {id(v) for v in live}
+
+    def rows(snap):
+        return {(t, r[0]): r for t, tree in enumerate(snap) for r in tree}
+
+    if route is not None:
+        if before != after:
+            listing_same = [[(r[0], r[1]) for r in tree] for tree in before] == \
+                           [[(r[0], r[1]) for r in tree] for tree in after]
+            rb, ra = rows(before), rows(after)
+            moved = [k for k in rb if k in ra and rb[k] != ra[k]]
+            # differences confined to the live arguments and to what hangs below them
+            def below_live(row):
+                return row[0] in live_ids or any(x in live_ids for x in row[2])
+            confined = listing_same and bool(moved) and all(below_live(ra[k]) and below_live(rb[k]) for k in moved)
+            new_parent_is_target = bool(live) and all(
+                ([p for p in ex.parents(v) if not isinstance(p, Slot)] or [None])[0] is target for v in live
+                if any(k[1] == id(v) for k in moved))
+            fails.append({"clause": "rejected-changes-nothing",
+                          "expected": "a rejected call leaves every element, parent chain and slot name as it was",
+                          "observed": {"listing_unchanged": listing_same,
+                                       "elements_with_another_parent_chain": sorted({ex.lab_of_id(k[1]) for k in moved}, key=str)},
+                          "step": info["i"], "op": op, "route": route, "raised": exc_name(info["raised"]),
+                          "listing_unchanged": listing_same, "confined_to_live_arguments": confined,
+                          "new_parent_is_target": new_parent_is_target,
+                          "target_kind": kind_of_element(target), "live_args": len(live)})
+    elif op["op"] in ("extend", "iadd") or (op["op"] == "update_items"
+                                             and len({k for k, _ in op["items"]}) == len(op["items"])):
+        # (with a repeated key an argument may have been placed and replaced again by a later item)
+        now = ex.children(target)
+        rb, ra = rows(before), rows(after)
+        for v in live:
+            if any(c is v for c in now):
+                continue
+            kb = [k for k in rb if k[1] == id(v)]
+            if any(k in ra and ra[k][2:] != rb[k][2:] for k in kb):
+                fails.append({"clause": "unplaced-argument-untouched",
+                              "expected": "an Element argument the failing call did not place keeps its parent chain",
+                              "observed": "its parent chain changed", "step": info["i"], "op": op,
+                              "raised": exc_name(info["raised"]), "target_kind": kind_of_element(target)})
+                break
+    return fails
+
+
+def rejected_placement_reparents(case, failure):
+    """class predicate of KF-C08-b (unchanged library): a REJECTED placing call on a sequence has already re-parented
+    its live Element argument.  Exactly: clause rejected-changes-nothing; the route is `insert` with an index that is no
+    integer (List, Array, MultiValue), item assignment of an ELEMENT onto an Array / MultiValue (index out of range
+    or no integer), or a slice assignment that raises (size mismatch of an extended slice, a later item the member
+    schema rejects); the listing of every tree is unchanged, the only elements whose parent chain differs are live
+    Element arguments of the call and what hangs below them, and their new parent is the rejecting container.
+    NOT in the class: `lst[i] = element` on a List (slot-based) — the unchanged code validates the index first."""
+    return (failure.get("clause") == "rejected-changes-nothing"
+            and failure.get("route") in ("list-insert-badindex", "array-insert-badindex", "array-setitem-element",
+                                         "list-setslice", "array-setslice")
+            and failure.get("listing_unchanged") is True and failure.get("confined_to_live_arguments") is True
+            and failure.get("new_parent_is_target") is True and (failure.get("live_args") or 0) >= 1)
 
 
 # ------------------------------------------------------------------ generators
@@ -1056,6 +1343,127 @@ def walk_schemas(s):
         yield from walk_schemas(c)
 
 
+# ------------------------------------------------------------------ failure / recovery paths (opt-in, round h8)
+
+def gen_live(rng, any_class=False):
+    a = {"live": {"tree": rng.choice([0, 0, 1, 1, 1]), "k": rng.randint(0, 7),
+                  "where": rng.choice(["any", "any", "other", "other", "same"])}}
+    if any_class:
+        a["live"]["any"] = True
+    if rng.random() < 0.4:
+        a["touch"] = True
+    return a
+
+
+def has_failure_paths(case):
+    """does the case use the optional fields of round h8 (second tree, live Element arguments, non-integer indexes, a
+    failing sort key)?  Such cases are oracle-only: the Lean runners answer `unsupported` for them."""
+    if case.get("aux"):
+        return True
+    for o in case["ops"]:
+        if "tt" in o:
+            return True
+        for part in ("s", "m"):
+            op = o.get(part)
+            if not op:
+                continue
+            if "ix" in op or op.get("key") == "raise":
+                return True
+            for a in ([op["a"]] if "a" in op else []) + list(op.get("as") or []) + [x[1] for x in op.get("items") or []]:
+                if isinstance(a, dict) and "live" in a:
+                    return True
+    return False
+
+
+def inject_failure_paths(rng, case, schema, any_class=False, p_op=0.5, t_max=7):
+    """Rewrite a generated history into one that exercises failure / recovery paths: a second tree of the same class
+    kept alive next to the main one, live members handed to placing calls (item / slice assignment, insert, append,
+    extend, +=, update / |= / item assignment on mappings), REJECTED calls (out-of-range and non-integer indexes for
+    item assignment and insert, undeclared keys, extended-slice size mismatches, failing sort keys) with fresh, pooled
+    and live Element arguments — each followed by the full observation and by further successful calls."""
+    if rng.random() < 0.75:
+        case["aux"] = [{"value": gen_value(rng, schema, valid=True)}]
+    ops = case["ops"]
+    out = []
+    for o in ops:
+        if case.get("aux") and rng.random() < 0.35:
+            o["tt"] = 1
+        sp, mp = o.get("s"), o.get("m")
+        if sp is not None and rng.random() < p_op:
+            name = sp["op"]
+            if name not in ("append", "insert", "setitem", "extend", "iadd", "setslice", "sort"):
+                # turn some of the other calls into placing calls: that is where the failure paths are
+                if rng.random() < 0.6:
+                    name = rng.choice(["setitem", "setitem", "insert", "insert", "append", "setslice", "extend", "iadd"])
+                    sp.clear()
+                    sp["op"] = name
+                    if name in ("setitem", "insert"):
+                        sp["i"] = gen_index(rng)
+                        sp["a"] = {"v": rng.choice(INT_POOL)}
+                    elif name == "append":
+                        sp["a"] = {"v": rng.choice(INT_POOL)}
+                    elif name == "setslice":
+                        sp["sl"] = gen_slice(rng)
+                        sp["as"] = [{"v": rng.choice(INT_POOL)} for _ in range(rng.choice([1, 2, 3]))]
+                    else:
+                        sp["as"] = [{"v": rng.choice(INT_POOL)} for _ in range(rng.choice([1, 2, 3]))]
+            if name in ("append", "insert", "setitem"):
+                r = rng.random()
+                if r < 0.6:
+                    sp["a"] = gen_live(rng, any_class and rng.random() < 0.1)
+                elif r < 0.75 and "new" not in sp["a"]:
+                    sp["a"] = {"new": sp["a"].get("v") if "v" in sp["a"] else None, "blank": "v" not in sp["a"]}
+                if name in ("insert", "setitem"):
+                    r = rng.random()
+                    if r < 0.3:
+                        sp["ix"] = rng.choice(["str", "str", "none", "float"])
+                    elif r < 0.55 and name == "setitem":
+                        sp["i"] = rng.choice([4, 5, 7, 9, -5, -8, -9, 12])
+            elif name in ("extend", "iadd", "setslice"):
+                items = sp.get("as") or []
+                if not items or rng.random() < 0.3:
+                    items.append({"v": rng.choice(INT_POOL)})
+                for j in range(len(items)):
+                    if rng.random() < 0.5:
+                        items[j] = gen_live(rng, any_class and rng.random() < 0.1)
+                if rng.random() < 0.25:
+                    items.append({"v": {"d": [["zz", 1]]}} if rng.random() < 0.5 else {"v": {"l": [{"l": []}]}})  # an item many member schemas reject
+                sp["as"] = items
+                if name == "setslice" and rng.random() < 0.5:
+                    sp["sl"] = [rng.choice([None, 0, 1]), None, rng.choice([2, 2, 3, -1, -2])]   # extended: sizes must match
+            elif name == "sort":
+                if rng.random() < 0.6:
+                    sp["key"] = "raise"
+        if mp is not None and rng.random() < p_op:
+            name = mp["op"]
+            if name == "setitem":
+                if rng.random() < 0.6:
+                    mp["a"] = gen_live(rng, any_class and rng.random() < 0.1)
+                if rng.random() < 0.3:
+                    mp["k"] = rng.choice(UNDECLARED)
+            elif name == "update_items":
+                for it in mp["items"]:
+                    if rng.random() < 0.5:
+                        it[1] = gen_live(rng, any_class and rng.random() < 0.1)
+                if rng.random() < 0.3:
+                    mp["items"].insert(rng.randint(0, len(mp["items"])), [rng.choice(UNDECLARED), {"v": 1}])
+                    if mp.get("form") != "pairs":
+                        mp["items"] = _dedupe(mp["items"])
+            elif name in ("setdefault", "delitem", "pop", "get") and rng.random() < 0.4:
+                mp["k"] = rng.choice(UNDECLARED)
+        out.append(o)
+    # recovery: the history goes on with calls that succeed, and everything is read once more
+    tail = {"t": rng.randint(0, t_max), "s": {"op": "append", "a": {"v": rng.choice(INT_POOL)}}, "m": {"op": "observe"}}
+    if case.get("aux") and rng.random() < 0.5:
+        tail["tt"] = 1
+    out.append(tail)
+    out.append({"t": 0, "s": {"op": "observe"}, "m": {"op": "observe"}})
+    case["ops"] = out
+    case["nomodel"] = True
+    case["why_nomodel"] = "failure paths: live Element arguments / second tree / non-integer index (oracle only)"
+    return case
+
+
 # ------------------------------------------------------------------ shrinking (shared)
 
 def shrink_history(case):
@@ -1089,6 +1497,34 @@ def shrink_history(case):
                 c = copy.deepcopy(case)
                 del c["ops"][i]["m"]
                 yield c
+    # failure-path fields: drop the second tree, aim at the main tree, replace a live argument by a fresh element
+    if case.get("aux"):
+        c = copy.deepcopy(case)
+        del c["aux"]
+        yield c
+        v = case["aux"][0].get("value")
+        if isinstance(v, dict) and v.get("l"):
+            for j in range(len(v["l"])):
+                c = copy.deepcopy(case)
+                del c["aux"][0]["value"]["l"][j]
+                yield c
+    for i, o in enumerate(ops):
+        if "tt" in o:
+            c = copy.deepcopy(case)
+            del c["ops"][i]["tt"]
+            yield c
+        for part in ("s", "m"):
+            op = o.get(part)
+            if not op:
+                continue
+            if isinstance(op.get("a"), dict) and "live" in op["a"]:
+                c = copy.deepcopy(case)
+                c["ops"][i][part]["a"] = {"new": None, "blank": True}
+                yield c
+                if op["a"].get("touch"):
+                    c = copy.deepcopy(case)
+                    del c["ops"][i][part]["a"]["touch"]
+                    yield c
     # simplify the initial value
     init = case["init"]
     if init.get("route") != "ctor":
